@@ -66,6 +66,33 @@ func (c26) Generate(r *engine.Rand, index int, tier string) *engine.Scenario {
 			}
 			g.filler(r.Range(2, 8))
 		}
+		if index%8 == 6 {
+			// stores to DIV and TAC back to back (two or three cycles apart) with TIMA and TMA at FF and the
+			// fastest rate: overflows caused by a store in the cycles right after a reload, one after another
+			g.emit(0x3e, 0xff, 0xe0, 0x06, 0x3e, 0x05, 0xe0, 0x07, 0x3e, 0xff, 0xe0, 0x05)
+			g.emit(0x21, 0x04, 0xff, 0x06, 0x04, 0x3e, 0x05)
+			for i, n := 0, r.Range(20, 70); i < n; i++ {
+				switch r.Intn(8) {
+				case 0:
+					g.emit(0x2e, 0x07) // LD L,07: HL = TAC
+				case 1:
+					g.emit(0x2e, 0x04) // LD L,04: HL = DIV
+				case 2:
+					g.emit(0x70) // LD (HL),B (4: another rate / DIV reset)
+				case 3:
+					g.emit(0xe0, 0x07) // LDH (07),A (5)
+				case 4:
+					g.emit(0xe0, 0x04)
+				case 5:
+					g.emit(0x00)
+				default:
+					for j, q := 0, r.Range(1, 6); j < q; j++ {
+						g.emit(0x77) // LD (HL),A, several in a row: a store every other cycle
+					}
+				}
+			}
+			g.filler(r.Range(2, 8))
+		}
 		for i, n := 0, r.Range(6, 40); i < n; i++ {
 			switch k := r.Intn(12); {
 			case k < 4:
@@ -260,6 +287,13 @@ func (c26) progress(sc *engine.Scenario) *engine.Result {
 		}
 		if rt.Overflows != ovBefore && !prevIF2 {
 			reqDue = m.N + 2 // the request flag was clear before: it must be set once the reload cycle is over
+		}
+		if reqDue == 0 && m.IRQ.ReadIF()&4 != 0 {
+			// the harness acknowledges a timer request once it has been seen (nothing in these programs
+			// would: IE is 0), so that every overflow can be told from the one before it
+			m.IRQ.ResetTimer()
+			l.ifReg &^= 4
+			res.Probe("timer_request_acknowledged_by_the_harness")
 		}
 		prevIF2 = m.IRQ.ReadIF()&4 != 0
 		// timer
